@@ -187,6 +187,11 @@ def run_case(desc):
     ids = []
     spell = {}
     ids.append(calc_id(v)); spell["dict"] = ids[-1]
+    # the definition itself, computed with the standard library only (no signac): MD5 of the canonical JSON text
+    # (sorted keys at every level, standard separators, ASCII-escaped)
+    import hashlib
+    ids.append(hashlib.md5(json.dumps(v, sort_keys=True, ensure_ascii=True, separators=(", ", ": ")).encode("ascii")).hexdigest())
+    spell["definition (stdlib)"] = ids[-1]
     for _ in range(4):
         ids.append(calc_id(reorder(v, rng)))
     ids.append(calc_id(reorder(v, rng, tuples=True))); spell["tuple"] = ids[-1]
